@@ -157,17 +157,24 @@ fn observe_lex(src: &str) -> String {
         }
         out
     });
-    r.unwrap_or_else(|_| "PANIC".into())
+    r.unwrap_or_else(|p| {
+        let msg = p.downcast_ref::<String>().cloned().or_else(|| p.downcast_ref::<&str>().map(|s| s.to_string()));
+        format!("PANIC {}", msg.unwrap_or_default().replace(['\n', '\t'], " "))
+    })
 }
 
 /// (kind, text) of every token when the source lexes without error.
 fn real_tokens(src: &str) -> Option<Vec<(Token, (usize, usize))>> {
-    let lexer = Lexer::new(src).ok()?;
-    let mut v = Vec::new();
-    for (r, span) in lexer {
-        v.push((r.ok()?, (span.offset(), span.len())));
-    }
-    Some(v)
+    // the implementation may panic inside a token callback: that is an observation, never the harness' death
+    std::panic::catch_unwind(|| {
+        let lexer = Lexer::new(src).ok()?;
+        let mut v = Vec::new();
+        for (r, span) in lexer {
+            v.push((r.ok()?, (span.offset(), span.len())));
+        }
+        Some(v)
+    })
+    .unwrap_or(None)
 }
 
 // ------------------------------------------------------------------------------------------------ generator
@@ -290,13 +297,22 @@ impl Gen<'_> {
         self.out.push(s);
     }
     fn string(&mut self) {
-        let body = match self.r.below(8) {
+        // multi-byte characters at the start, inside and at the end of the literal (the string callback works on
+        // bytes; spans after such a literal depend on it)
+        let body = match self.r.below(16) {
             0 => String::new(),
             1 => "foo bar".to_string(),
             2 => "wasi:io/streams@0.2.0".to_string(),
             3 => "caf\u{e9} \u{65e5}\u{672c} \u{1f600}".to_string(),
             4 => "// not a comment /* nor this".to_string(),
             5 => "line\nbreak\ttab".to_string(),
+            6 => "caf\u{e9}".to_string(),
+            7 => "\u{20ac}-price".to_string(),
+            8 => "na\u{ef}ve".to_string(),
+            9 => "\u{e9}".to_string(),
+            10 => "\u{1f600}x".to_string(),
+            11 => "x\u{65e5}\u{672c}\u{8a9e}".to_string(),
+            12 => format!("\u{e9}{}\u{fc}", self.word()),
             _ => self.word(),
         };
         self.out.push(format!("\"{}\"", body));
@@ -949,13 +965,19 @@ impl Sink {
         if !self.seen.insert(src.to_string()) {
             return;
         }
+        // the case is on disk before the implementation runs: if the process is killed (abort, stack overflow) the
+        // orchestration reports the last case as the failing input
         writeln!(self.cases, "doc\t{}\t{}\t{}", self.n, origin, enc(src)).unwrap();
+        self.cases.flush().unwrap();
         writeln!(self.obs, "{}", observe_parse(src)).unwrap();
+        self.obs.flush().unwrap();
         self.n += 1;
     }
     fn lex(&mut self, origin: &str, src: &str) {
         writeln!(self.cases, "lex\t{}\t{}\t{}", self.n, origin, enc(src)).unwrap();
+        self.cases.flush().unwrap();
         writeln!(self.obs, "{}", observe_lex(src)).unwrap();
+        self.obs.flush().unwrap();
         self.n += 1;
     }
 }
